@@ -61,6 +61,7 @@ type Cfg struct {
 	Kind  string                       `json:"kind"`
 	Mod   string                       `json:"mod"`
 	Mfail []string                     `json:"mfail"`
+	From  string                       `json:"from"` // "addr" | "null": ordinary sender / null reverse-path
 }
 
 type Call struct {
@@ -172,7 +173,12 @@ func configText(c Cfg, key string) (top, pipe string) {
 		// DMARC needs DKIM and SPF results to evaluate: an extra (unscripted) check supplies failing ones
 		pb.WriteString("check {\nverif_authres\n}\ndmarc yes\n")
 	}
-	pb.WriteString("source example.org {\n")
+	if c.From == "null" {
+		// the null reverse-path matches no source rule: the block under test is the default source
+		pb.WriteString("source example.org {\nreject\n}\ndefault_source {\n")
+	} else {
+		pb.WriteString("source example.org {\n")
+	}
 	pb.WriteString(in("S"))
 	for _, b := range []string{"D1", "D2"} {
 		mod := ""
@@ -192,7 +198,10 @@ func configText(c Cfg, key string) (top, pipe string) {
 		}
 		fmt.Fprintf(&pb, "destination %s {\n%s%sdeliver_to &%s_%s\n}\n", blockDomain[b], in(b), mod, key, blockTarget[b])
 	}
-	pb.WriteString("default_destination {\nreject\n}\n}\ndefault_source {\nreject\n}\n")
+	pb.WriteString("default_destination {\nreject\n}\n}\n")
+	if c.From != "null" {
+		pb.WriteString("default_source {\nreject\n}\n")
+	}
 	return tb.String(), pb.String()
 }
 
@@ -382,7 +391,12 @@ func runPipeline(t *testing.T, b Behaviour, w *bufio.Writer) {
 		meta := &module.MsgMetadata{ID: fmt.Sprintf("verif%d", b.ID), OriginalFrom: sender, SMTPOpts: smtp.MailOptions{}}
 
 		var dl module.Delivery
-		d.cmd("start", "", func() { dl, err = p.Start(ctx, meta, sender) })
+		from := sender
+		if b.Cfg.From == "null" {
+			from = ""
+		}
+		meta.OriginalFrom = from
+		d.cmd("start", "", func() { dl, err = p.Start(ctx, meta, from) })
 		if !d.ret("start", "", err) {
 			tr.Emit("End", nil)
 			return
@@ -420,9 +434,7 @@ func runPipeline(t *testing.T, b Behaviour, w *bufio.Writer) {
 					}
 				}
 				tr.Emit("Ret", vtrace.Ev{"op": "body", "r": "", "res": res, "code": code, "st": st})
-				if res != "ok" {
-					fin = "abort"
-				}
+				// like Session.LMTPData and the queue: Commit follows BodyNonAtomic whatever the statuses were
 			} else {
 				var e error
 				d.cmd("body", "", func() { e = dl.Body(ctx, hdr, body) })
